@@ -3,6 +3,7 @@ package cose
 import (
 	"errors"
 	"fmt"
+	"math"
 	"math/big"
 	"strings"
 
@@ -729,6 +730,9 @@ func normalizeLabel(label any) (any, bool) {
 	case int64:
 		label = int64(v)
 	case uint:
+		if uint64(v) > math.MaxInt64 {
+			return nil, false // not representable as a decoded label
+		}
 		label = int64(v)
 	case uint8:
 		label = int64(v)
@@ -737,6 +741,9 @@ func normalizeLabel(label any) (any, bool) {
 	case uint32:
 		label = int64(v)
 	case uint64:
+		if v > math.MaxInt64 {
+			return nil, false // not representable as a decoded label
+		}
 		label = int64(v)
 	case string:
 		// no conversion
